@@ -365,12 +365,14 @@ func ndChildListEntry(menu []int) any {
 		return map[string]any{"$match": ndListPattern(), "$value": ndScalarNN(), "a": ndScalarNN()}
 	case 9:
 		return map[string]any{"a": ndScalarNN()}
+	case 11:
+		return "$required" // a marker appended by the child stays in the result
 	default:
 		return "$delete" // misplaced: a bare string entry
 	}
 }
 
-var fullMenu = []int{0, 1, 2, 3, 4, 5, 6, 7, 8, 9, 10}
+var fullMenu = []int{0, 1, 2, 3, 4, 5, 6, 7, 8, 9, 10, 11}
 
 // matchMenu: the entry forms that edit existing entries (the interplay of
 // two such entries is where aliasing defects show).
